@@ -30,6 +30,15 @@ ASSUMPTIONS = ["sklearn DBSCAN(min_samples=1) yields the connected "
                "components of the eps-neighbourhood graph (no noise points)"]
 
 MUTANTS = [
+    ("matched source appended to the newest group", "AegeanTools/cluster.py",
+     "                group.append(idx)\n                break",
+     "                groups[-1].append(idx)\n                break", "C19-R9"),
+    ("no break after joining", "AegeanTools/cluster.py",
+     "                group.append(idx)\n                break",
+     "                group.append(idx)", "C19-R9"),
+    ("distance to all sources, not to the group", "AegeanTools/cluster.py",
+     "if len(group_recs) and dist(rec, group_recs).min() < eps:",
+     "if len(group_recs) and dist(rec, srccat).min() < eps:", "C19-R9"),
     ("touches flux", "AegeanTools/cluster.py",
      "            src.island = isle\n            src.source = comp\n"
      "        islands.append(group)\n\n    sources = []\n    for group in "
@@ -436,6 +445,7 @@ def run(ctx):
                       "identity at ratio 1, non-decreasing for ratio >= 1; "
                       "found %s" % (ax, ax, e), node=s)
     ctx.floor("C19-R7", n7, 2, "ratio-based rescale statements")
+    r9_greedy(ctx, prog)
 
 
 def default_linking_length(ctx, prog, rule):
@@ -485,3 +495,88 @@ def default_linking_length(ctx, prog, rule):
               "divided by 60 again and taken as degrees, so any other "
               "conversion makes blends be fitted one by one (or everything "
               "jointly); found %s" % found, node=d0[0] if d0 else pf.node)
+
+
+def r9_greedy(ctx, prog):
+    """the elliptical-distance variant: a source joins the group it was
+    compared with, exactly once"""
+    ctx.rule("C19-R9", "greedy grouping (regroup_vectorized): inside the "
+             "loop over the existing groups the source is appended to the "
+             "group whose members it was just compared with (the loop "
+             "variable), the distance is evaluated on members of that group, "
+             "the search stops after joining (break), and only when no group "
+             "matched is a new singleton group created (for ... else)")
+    fi = prog.func("cluster.regroup_vectorized")
+    outer = [l for l in walk_no_nested(fi.node) if isinstance(l, ast.For)
+             and any(isinstance(x, ast.For) for b in l.body
+                     for x in ast.walk(b))]
+    if not outer:
+        raise AnalysisError("C19-R9: source loop / group loop of "
+                            "regroup_vectorized not found")
+    o = outer[0]
+    idx = norm(o.target)
+    inner = [x for b in o.body for x in ast.walk(b) if isinstance(x, ast.For)]
+    gl = inner[0]
+    gvar = norm(gl.target)
+    # names derived from the loop variable inside the inner loop
+    derived = {gvar}
+    changed = True
+    while changed:
+        changed = False
+        for st in ast.walk(gl):
+            if isinstance(st, ast.Assign) and isinstance(
+                    st.targets[0], ast.Name) and \
+                    st.targets[0].id not in derived and \
+                    derived & names_in(st.value):
+                derived.add(st.targets[0].id)
+                changed = True
+    dparam = fi.params[-1] if "dist" in fi.params else None
+    joins = []
+    for iff in ast.walk(gl):
+        if not isinstance(iff, ast.If):
+            continue
+        dcalls = [c for c in ast.walk(iff.test) if isinstance(c, ast.Call)
+                  and norm(c.func) == "dist"]
+        if not dcalls or "eps" not in names_in(iff.test):
+            continue
+        apps = [c for b in iff.body for c in ast.walk(b)
+                if isinstance(c, ast.Call) and
+                isinstance(c.func, ast.Attribute) and
+                c.func.attr in ("append", "extend", "add")]
+        joins.append((iff, dcalls, apps))
+    ctx.floor("C19-R9", len(joins), 1, "join sites (distance test followed "
+              "by an append)")
+    for iff, dcalls, apps in joins:
+        ok_d = all(derived & names_in(c) for c in dcalls)
+        ctx.check("C19-R9", fi, "distance evaluated on the group's members: "
+                  + norm(iff.test, 60), ok_d,
+                  "the distance test does not involve the members of the "
+                  "group being visited (%s)" % gvar, node=iff)
+        recv = [norm(c.func.value) for c in apps]
+        ctx.check("C19-R9", fi, "join target %s" % recv,
+                  recv == [gvar] and all(
+                      c.args and norm(c.args[0]) == idx for c in apps),
+                  "the source that matched group `%s` is appended to %s: it "
+                  "lands in a group none of whose members it is linked to, "
+                  "so that group is no longer chain-connected (and the "
+                  "matched group misses a member)" % (gvar, recv),
+                  node=apps[0] if apps else iff)
+        brk = any(isinstance(b, ast.Break) for b in iff.body)
+        ctx.check("C19-R9", fi, "search stops after joining", brk,
+                  "without `break` the source may join several groups (no "
+                  "partition)", node=iff)
+    news = [c for b in gl.orelse for c in ast.walk(b)
+            if isinstance(c, ast.Call) and isinstance(c.func, ast.Attribute)
+            and c.func.attr == "append"]
+    ok_n = len(news) == 1 and isinstance(news[0].args[0], ast.List) and \
+        [norm(e) for e in news[0].args[0].elts] == [idx] and \
+        norm(news[0].func.value) == norm(_iter_base(gl.iter))
+    ctx.check("C19-R9", fi, "unmatched source opens a singleton group", ok_n,
+              "the else clause of the group loop must append [%s] to the "
+              "list of groups" % idx, node=gl)
+
+
+def _iter_base(e):
+    while isinstance(e, ast.Call) and e.args:
+        e = e.args[0]
+    return e
